@@ -1695,6 +1695,10 @@ class Engine:
                          z3.Lambda([kk], z3.If(ok, z3.Select(sv.d_vals(other), kk), z3.Select(sv.d_vals(tgt), kk))))
     elif k == 'set' and name == 'add':
       new = V(tgt.t, z3.Store(tgt.z, coerce(args[0], tgt.t.args[0]).z, True))
+    elif k == 'set' and name == 'update' and len(args) == 1 and not c.keywords and \
+        isinstance(args[0], V) and args[0].t.kind in ('set', 'list'):
+      other = args[0] if args[0].t.kind == 'set' else set_of_list(args[0])
+      new = tgt if other.meta == 'empty' else self.binop(ast.BitOr(), tgt, other, st, c)
     elif k == 'set' and name in ('remove', 'discard') and len(args) == 1:
       e_ = coerce(args[0], tgt.t.args[0])
       if name == 'remove':
